@@ -14,10 +14,10 @@ def all_parent_vectors(n):
     return [[-1] + p for p in out]
 
 
-def make_case(parents, sets_per_node, fam, variant=0, desc=None):
-    """sets_per_node[i] in {0 (dummy), 1, 2, ...}."""
-    return {"parents": list(parents), "sets": list(sets_per_node), "fam": fam, "variant": variant,
-            "desc": desc or f"par={list(parents)} sets={list(sets_per_node)} fam={fam}/{variant}"}
+def make_case(parents, sets_per_node, fam, variant=0, desc=None, mirror=False):
+    """sets_per_node[i] in {0 (dummy), 1, 2, ...}; mirror=True lists the children of every node in reverse order."""
+    return {"parents": list(parents), "sets": list(sets_per_node), "fam": fam, "variant": variant, "mirror": bool(mirror),
+            "desc": desc or f"par={list(parents)} sets={list(sets_per_node)} fam={fam}/{variant}{' mirrored' if mirror else ''}"}
 
 
 def random_tree_case(seed, k, rep):
@@ -50,7 +50,11 @@ def build(tcase):
         else:
             nodes.append(TreeNodeBasis(list(basis[cur:cur + s])))
             cur += s
-    for i, p in enumerate(tcase["parents"]):
+    idx = list(range(len(nodes)))
+    if tcase.get("mirror"):
+        idx = idx[::-1]
+    for i in idx:
+        p = tcase["parents"][i]
         if p >= 0:
             nodes[p].add_child(nodes[i])
     tree = BasisTree(nodes[0])
@@ -190,3 +194,24 @@ def tails(ref, tcase, t, bd):
 
 def dense_terms(terms, order_basis, order_alphas, offset=0.0):
     return cz.dense_terms(terms, order_basis, order_alphas, offset)
+
+
+def mirror_ttns(t_a, tcase_a, tcase_b):
+    """The same state on the tree whose nodes list their children in reverse order: child axes transposed accordingly.
+    Nodes of the two trees are matched through their construction index."""
+    from renormalizer.tn import TTNS
+    tree_a, nodes_a, _, _ = built(tcase_a)
+    tree_b, nodes_b, _, _ = built(tcase_b)
+    new = TTNS(tree_b)
+    tn_a = {nodes_a.index(t_a.tn2bn[n]): n for n in t_a.node_list}
+    for nb in new.node_list:
+        k = nodes_b.index(new.tn2bn[nb])
+        na = tn_a[k]
+        ch_a = [nodes_a.index(c) for c in nodes_a[k].children]
+        ch_b = [nodes_b.index(c) for c in nodes_b[k].children]
+        ta = np.asarray(na.tensor)
+        perm = [ch_a.index(c) for c in ch_b] + list(range(len(ch_a), ta.ndim))
+        nb.tensor = np.transpose(ta, perm).copy()
+        nb.qn = np.array(na.qn).copy()
+    new.coeff = t_a.coeff
+    return new
